@@ -234,7 +234,7 @@ def _d3(table, exp, path):
 
 
 def shards(tier, seed):
-    n = 600 if tier == 'quick' else 12000
+    n = 600 if tier == 'quick' else 36000
     return [{'n': n} for _ in range(16)]
 
 
